@@ -4291,6 +4291,7 @@ def check_onepoint(goal, ctx):
     else:
         raise VeriTException("onepoint", "left side is not forall or exists")
 
+    check_bound_names("onepoint", goal, l_vars, r_vars)
     if len(l_vars) < len(r_vars):
         raise VeriTException("onepoint", "unexpected number of quantified variables")
 
